@@ -51,7 +51,9 @@ def drive(binary, seed, n, events, out, only=None):
     if rc != 0:
         if rc is not None and "panic:" in (se or ""):
             return dict(crash=(se or "")[-6000:])
-        raise vlib.Inconclusive("routing-table driver failed (rc=%s): %s" % (rc, (se or "")[-3000:]))
+        # the trace is flushed per event: what was recorded up to the failure is still validated
+        n = len(vlib.read_trace(out)) if os.path.exists(out) else 0
+        return dict(histories=0, events=n, driver_error="routing-table driver failed (rc=%s): %s" % (rc, (se or "")[-1500:]))
     return json.loads(so.strip().splitlines()[-1])
 
 
@@ -134,6 +136,7 @@ def run(prop, tier, seed, replay=None):
     with ThreadPoolExecutor(max_workers=min(len(jobs), max(1, vlib.NCPU // 2))) as ex:
         results = list(ex.map(one, jobs))
     events_total = hist = deviations = answers = 0
+    driver_errors = []
     base = [r for r in results if r[0] != "exh" and r[3] is not None]
     if not replay and base:
         st_ = vlib.binding_selftest("Trace_RoutingTable", ("Trace_RoutingTable.cfg", "Trace_RoutingTable_relaxed.cfg"), base[0][1], corrupt(prop), INV_PROPS)
@@ -154,6 +157,8 @@ def run(prop, tier, seed, replay=None):
             else:
                 log("  note: driver process panicked (judged by C05): seed %s" % s)
             continue
+        if st.get("driver_error"):
+            driver_errors.append(st["driver_error"])
         events_total += st["events"]
         hist += st["histories"] if not replay else 1
         if s == "exh":
@@ -205,6 +210,8 @@ def run(prop, tier, seed, replay=None):
                     "error / not at all, unsolicited and replayed responses, AddNode, questionable-ping time-outs, 16-minute ageing, blocklist "
                     "changes; after every event the snapshot hook and NumNodes/Stats/Nodes are validated by TLC against RoutingTable.tla",
                invariants=[k for k, p in INV_PROPS.items() if prop in p])
+    for de in driver_errors:
+        v.inconclusive.append(de)
     rc = v.finish()
     vlib.write_evidence(prop, tier, seed, cov, time.time() - t0, len(v.violations),
                         assumptions=["ID validity for an IP (BEP 42) is taken from dht.NodeIdSecure, which C17 checks separately",
